@@ -157,7 +157,7 @@ def r3_segments(ctx):
         got[k] = flatp(show(a["body"]))
         order.append(k)
     for k, w in want.items():
-        if got.get(k) == w:
+        if same(got.get(k) or "", w):
             r.inst("construct_path_segments#" + k, w)
         else:
             r.viol("R3:construct_path_segments#" + k, "arm `%s` is `%s`, expected `%s`" % (k, got.get(k), w), file=fn.file, line=fn.line)
